@@ -475,6 +475,21 @@ func checkCmd(args []string) int {
 		}
 		say("UNDECIDED property=%s group=%s function=%s reason=%s", *prop, n, fn, reason)
 	}
+	// static (syntactic) obligations, re-derived from the working tree
+	statics := staticObligations(*prop)
+	for _, so := range statics {
+		claimed++
+		if so.OK {
+			discharged++
+			continue
+		}
+		violations++
+		exit = max(exit, 1)
+		os.MkdirAll(replayDir, 0o755)
+		rp := filepath.Join(replayDir, sanitizeName(so.Name)+".replay.txt")
+		os.WriteFile(rp, []byte(fmt.Sprintf("obligation: %s\nproperty: %s\nkind: static\nclause: %s\nfound in working tree: %s\n", so.Name, *prop, so.Src, so.Detail)), 0o644)
+		say("VIOLATION property=%s replay=%s obligation=%s status=static-mismatch (%s) no-failing-input-found", *prop, rp, so.Name, so.Detail)
+	}
 	if claimed == 0 && exit == 0 {
 		say("exovc: no claimed obligation was generated for %s (machinery broken)", *prop)
 		exit = 2
